@@ -180,4 +180,28 @@ ApplyUnits(img, pending, S, i) ==
 
 ApplyAll(img, pending) == ApplyUnits(img, pending, Units(pending), 1)
 CrashImagesOf(img, pending, subsets) == {ApplyUnits(img, pending, S, 1) : S \in subsets}
+
+(* ------------------------- torn units (intra-block cuts) ------------------------- *)
+\* A unit of S that is additionally in Tn reached the platter only partly (cut at a 512-byte
+\* boundary inside the block).  What the scanner then sees depends on the old and the new content:
+\* a record head on either side leaves the record magic with a token that no longer verifies (Xh);
+\* a marker's payload lies in the first 512 bytes, so a torn marker is either the old block or
+\* the complete marker (both already covered by the subsets); anything else is junk (X).  A torn
+\* journal slot fails its checksum (JBad); a metadata copy's payload lies in the first 512 bytes.
+TornOver(old, new) == IF new.t = "H" \/ old.t = "H" THEN Xh ELSE IF new.t = "M" THEN old ELSE X
+
+RECURSIVE ApplyUnitsT(_, _, _, _, _)
+ApplyUnitsT(img, pending, S, Tn, i) ==
+  IF i > Len(pending) THEN img
+  ELSE LET w == pending[i] IN
+       IF w.kind = "d" THEN
+            ApplyUnitsT([img EXCEPT !.blk = [b \in Blocks |->
+                            IF b >= w.at /\ b < w.at + Len(w.c) /\ <<i, b - w.at>> \in S
+                            THEN (IF <<i, b - w.at>> \in Tn THEN TornOver(@[b], w.c[b - w.at + 1])
+                                  ELSE w.c[b - w.at + 1])
+                            ELSE @[b]]], pending, S, Tn, i + 1)
+       ELSE IF <<i, 0>> \notin S THEN ApplyUnitsT(img, pending, S, Tn, i + 1)
+       ELSE IF w.kind = "j" THEN ApplyUnitsT([img EXCEPT !.j[w.slot] = IF <<i, 0>> \in Tn THEN JBad ELSE w.v],
+                                             pending, S, Tn, i + 1)
+       ELSE ApplyUnitsT([img EXCEPT !.m[w.copy] = w.v], pending, S, Tn, i + 1)
 =============================================================================
